@@ -74,6 +74,7 @@ def configs():
         cs.append(Cfg('int%d' % size, int, kw={'size': size}, model='int'))
         if size != 64: cs.append(Cfg('uint%d' % size, int, kw={'size': size, 'unsigned': True}, model='int'))
     cs.append(Cfg('int', int, model='int'))
+    cs.append(Cfg('intunb', int, kw={'unsigned': None}, model='int'))     # no size, unsigned=None: unbounded for validate; SQLite holds 64 bits
     cs.append(Cfg('float', float, param=False))
     for p, s in ((12, 2), (30, 2), (10, 5), (5, 1), (38, 10)):
         cs.append(Cfg('dec_%d_%d' % (p, s), Decimal, args=(p, s), model='decimal', scale=s))
@@ -123,6 +124,7 @@ def values_for(c, ctx):
     if m == 'bool': return [True, False, 0, 1, 2, 'x', '']
     if c.py_type is int:
         size = c.kw.get('size', 32); uns = c.kw.get('unsigned', False)
+        if c.name == 'intunb': return [0, -1, I63 - 1, -I63, I63, -I63 - 1, 2 ** 64, -2 ** 100, 10 ** 30] + [rng.randint(-2 ** 66, 2 ** 66) for _ in range(6 * n)]
         lo, hi = (0, 2 ** size - 1) if uns else (-2 ** (size - 1), 2 ** (size - 1) - 1)
         vs = {lo, lo + 1, hi - 1, hi, 0, 1, 2, 127, 128, 255, 256}
         if not uns: vs |= {-1, -2, -128, -129}
@@ -330,6 +332,8 @@ def run_values(ctx, db, ents, rawcon, cs):
             ctx.case([c.name, repr(v)[:80]], kind='oracle:roundtrip:' + c.name.rstrip('0123456789_'))
             if 'error' in r:
                 ctx.count('write-or-read-error:%s:%s:%s' % (c.name.rstrip('0123456789_'), r['stage'], r['error']))
+                if c.model == 'int' and r['stage'] == 'write' and isinstance(v, int) and not isinstance(v, bool):
+                    reqs.append({'op': 'store', 'type': 'int', 'value': v}); metas.append((c, inp, r))
                 if r['stage'] == 'read':
                     ctx.violation('a value that was accepted and flushed cannot be read in a fresh session (%s)' % r['error'], inp, observed=r['error'], expected=repr(r['seen'])[:200],
                                   key='unreadable:%s:%s' % (c.name, repr(v)[:60]))
@@ -384,6 +388,11 @@ def compare_model(ctx, reqs, metas):
         ctx.case([c.name, inp['value'], 'model'], kind='model-tie:' + c.model)
         if 'driver_error' in out:
             ctx.divergence('driver error', inp, model=out); continue
+        if 'error' in r:
+            # an int the attribute accepts but a 64-bit INTEGER cannot hold: the driver refuses it at the flush (model: intToSql = none)
+            if not (out['sql'] == {'error': 'OverflowError'} and r['error'] == 'OverflowError'):
+                ctx.divergence('write failed in real Pony but the model stores the value (or the other way round)', inp, model=out['sql'], impl=r['error'])
+            continue
         seen, got, raw = r['seen'], r['got'], r['raw']
         if c.model == 'decimal':
             q = Decimal(10) ** -c.scale
